@@ -278,10 +278,8 @@ def run(prop, replay_file=None):
                     rep.sample(dict(kind="TLC behaviour replayed into SimulatedBroker", instance=name,
                                     calls=[e["call"] for e in events[:12]]))
             shutil.rmtree(simdir, ignore_errors=True)
-        # 3. exhaustive transition cover (thorough)
-        ncover = 0
-        if t == "thorough":
-            ncover = transition_cover(rep, prop, w, feats_all)
+        # 3. exhaustive transition cover of a small instance (depth 3; depth 4 in the thorough tier)
+        ncover = transition_cover(rep, prop, w, feats_all, 3 if t == "quick" else 4)
         # 4. code -> spec: recorded traces validated by TLC
         ntr = 120 if t == "quick" else 1500
         nvalid, tr_feats = validate_random_traces(rep, prop, w, ntr, sd)
@@ -327,10 +325,10 @@ def _route(rep, prop, tag, detail, step, payload, calls):
 
 
 # ---------------------------------------------------------------------------------------------
-def transition_cover(rep, prop, w, feats_all):
+def transition_cover(rep, prop, w, feats_all, depth=3):
     """Dump the complete labelled state graph of a small instance and exercise EVERY transition on
     the real classes: replay the BFS path to the source state, then the edge's call."""
-    cfg = mc_cfg("SpecObs", 3, 3, "FALSE", "TRUE", "MCAmountsSmall", "MCQtysSmall", "MCInstantsSmall", "MCPids", "TRUE",
+    cfg = mc_cfg("SpecObs", depth, 3, "FALSE", "TRUE", "MCAmountsSmall", "MCQtysSmall", "MCInstantsSmall", "MCPids", "TRUE",
                  view=False)
     with open(os.path.join(w, "cover.cfg"), "w") as fh:
         fh.write(cfg)
